@@ -1574,10 +1574,12 @@ class RTCSctpTransport(AsyncIOEventEmitter):
             for stream_id in list(self._data_channels.keys()):
                 self._data_channel_closed(stream_id)
 
-            # close data channels which were never assigned a stream
-            for channel, _, _ in self._data_channel_queue:
-                channel._setReadyState("closed")
+            # close data channels which were never assigned a stream (a "close"
+            # handler may create or close channels: walk a snapshot)
+            queued = list(self._data_channel_queue)
             self._data_channel_queue.clear()
+            for channel, _, _ in queued:
+                channel._setReadyState("closed")
 
             # no more events will be emitted, so remove all event listeners
             # to facilitate garbage collection.
